@@ -34,6 +34,9 @@ ASSUMPTIONS = [
     "centre does not swamp them; eccentricity near "
     "ties is compared with the conditioning-aware tolerance 1e-9 + 3e-16/max(e,1.5e-8) (sqrt(1-b^2/a^2) amplifies the "
     "rounding of b^2/a^2) and additionally on e^2 at 1e-9",
+    "iq of Ellipse and Ellipsoid is compared RELATIVE to itself (1e-9 of the exact quotient 4 pi A/P^2 with the AGM "
+    "perimeter, resp. 36 pi V^2/S^3 with the quadrature surface): needles and discs have quotients down to 1e-6; the "
+    "model computes iq from area and perimeter (C10.ellipse_iq_def), compared relatively as well",
     "'at most 1' is checked as iq <= 1 + 1e-12 (rounding of 36 pi V^2/S^3 at a sphere); 'equal to 1 only for "
     "circle/sphere' is checked as iq < 1 whenever two axes differ by a relative gap >= 1e-4 (deficit ~ 3/8 gap^2)",
     "scipy.special.ellipe/ellipeinc/ellipkinc are parameters of the model; the arguments the implementation hands to "
@@ -661,7 +664,9 @@ def compare_2d_model(ctx, case, op, obs, r, ecc_tol):
     mI = np.array(r[8:17]).reshape(3, 3)
     if not ctx.close_enough(obs["inertia"], mI, abs(r[7])):
         ctx.disagree(op + ":inertia_tensor", case, [obs["inertia"], mI])
-    if not ctx.close_enough(float(obs["iq"]), r[17], 1.0):
+    # relative to itself: the quotient of a needle is tiny (~ pi b / (4 a)); the model computes it from A and p
+    # (C10.ellipse_iq_def), so an implementation that derives it from the rounded eccentricity disagrees here
+    if not ctx.close_enough(float(obs["iq"]), r[17], abs(r[17])):
         ctx.disagree(op + ":iq", case, [float(obs["iq"]), r[17]])
 
 
@@ -750,8 +755,14 @@ def eval_ellipse(ctx, case, idx=0):
         ctx.fail("Ellipse.eccentricity:range", "eccentricity outside [0,1)", case, ecc)
     iq = float(obs["iq"])
     iq_exact = min(4 * PI * fpi(A) / (P * P), 1.0)
-    if not ctx.close_enough(iq, iq_exact, 1.0):
-        ctx.fail("Ellipse.iq:value", "iq differs from 4 pi A / P^2 of the exact area and perimeter", case, [iq, iq_exact])
+    # RELATIVE to the exact quotient (the AGM perimeter is independent of scipy and of the eccentricity): the quotient of
+    # a needle is ~ pi b / (4 a), down to 2.5e-6 inside the range, and an absolute comparison would see nothing
+    if not ctx.close_enough(iq, iq_exact, iq_exact):
+        ctx.fail("Ellipse.iq:value", "iq differs from 4 pi A / P^2 of the exact area and perimeter by more than 1e-9 of "
+                 "itself", case, {"got": iq, "exact": iq_exact, "rel": abs(iq - iq_exact) / iq_exact,
+                                  "aspect": hi / lo})
+    if hi / lo >= 1e4:
+        ctx.count("iq:ellipse-aspect>=1e%d" % min(int(math.floor(math.log10(hi / lo) + 1e-9)), 6))
     if not iq <= 1.0 + 1e-12:
         ctx.fail("Ellipse.iq:at-most-1", "iq exceeds 1", case, iq)
     if rel_gap(a, b) >= 1e-4 and not iq < 1.0:
@@ -868,7 +879,7 @@ def eval_ellipsoid(ctx, case, idx=0):
     scale = m[0] * (hi ** 2 + float(cv @ cv))
     if not ctx.close_enough(obs["inertia"], mI, scale):
         ctx.disagree("c10.ellipsoid.all:inertia_tensor", case, [obs["inertia"], mI])
-    if not ctx.close_enough(obs["iq"], m[11], 1.0):
+    if not ctx.close_enough(obs["iq"], m[11], abs(m[11])):
         ctx.disagree("c10.ellipsoid.all:iq", case, [obs["iq"], m[11]])
     # ---- C
     q = ctx.driver.Q("c10.spec.ellipsoid", 1.0, a, b, c_, cen)
@@ -899,9 +910,11 @@ def eval_ellipsoid(ctx, case, idx=0):
             ctx.fail("Ellipsoid.surface_area:value", "surface area differs from the surface integral", case,
                      [obs["surface"], S])
         iq_exact = 36 * PI * fpi(q[0]) ** 2 / S ** 3
-        if not ctx.close_enough(obs["iq"], iq_exact, 1.0):
-            ctx.fail("Ellipsoid.iq:value", "iq differs from 36 pi V^2 / S^3 of the exact volume and surface", case,
-                     [obs["iq"], iq_exact])
+        # RELATIVE (needles / discs have tiny quotients); the quadrature error of S enters three times
+        if not abs(obs["iq"] - iq_exact) <= (1e-9 + 3.0 * serr / S) * iq_exact:
+            ctx.fail("Ellipsoid.iq:value", "iq differs from 36 pi V^2 / S^3 of the exact volume and surface by more than "
+                     "1e-9 of itself", case, {"got": obs["iq"], "exact": iq_exact,
+                                              "rel": abs(obs["iq"] - iq_exact) / iq_exact, "aspect": hi / lo})
     Scf = spheroid_closed_form(lo, mid, hi)
     if Scf is not None:
         ctx.count("oracle:spheroid-closed-form")
@@ -985,6 +998,14 @@ WITNESSES = [
                  [3.0, 1e-3, 1.5e-3])
     for p in sorted(set(__import__("itertools").permutations(base)))
     for uc in ([0.0, 0.0, 0.0], [0.3, -0.2, 0.5])
+] + [
+    # needle ellipses at aspect 1e4, 1e5, 1e6, both axis orders, incl. the corners of the range (iq, eccentricity,
+    # perimeter judged relative to themselves)
+    {"cls": "Ellipse", "axes": list(p), "center": [0.25 * min(p), -0.5 * min(p), 0.0],
+     "info": {"axes_kind": "witness-needle-ellipse", "centre_kind": "tiny"}}
+    for base in ([1e3, 1e-3], [1e3, 1e-2], [1e3, 1e-1], [1.0, 1e-4], [1e2, 1e-3], [1e-3 * 1e4, 1e-3], [500.0, 1e-3],
+                 [1e3, 2e-3], [37.0, 1e-3], [1e3, 0.03])
+    for p in (base, base[::-1])
 ] + [
     {"cls": "Sphere", "axes": [r], "center": [0.3 * r, -0.2 * r, 0.5 * r],
      "info": {"axes_kind": "witness-extreme", "centre_kind": "tiny"}} for r in (1e-3, 1e3)
